@@ -94,6 +94,23 @@ class Walker:
                     t = strip(a)
                     if ty.endswith("&") and not ty.startswith("const ") and t["k"] == "MemberExpr" and t["member"].get("this"):
                         self.ffields.add(t["member"]["qname"])
+        # own member functions called on this that store into scalar members: their stores count as stores of this function
+        self.bind = None      # set on a sub-walker that reads an inlined member helper: callee parameter name -> 'param' | 'probe' | 'other'
+        self.member_writes = {}     # call node id -> (target function, scalar members it assigns)
+        for n in walk(f.body):
+            if is_call(n) and n["callee"].get("inrepo") and ("obj" not in n or strip(f.obj(n))["k"] == "CXXThisExpr"):
+                for t in fb.targets(n, static_type_only=True):
+                    if t.body is None or t.key == f.key:
+                        continue
+                    w = set()
+                    for x in walk(t.body):
+                        if x["k"] in ("BinaryOperator", "CompoundAssignOperator") and x.get("op", "").endswith("=") and x["op"] not in ("==", "!=", "<=", ">="):
+                            l = strip(kids(x)[0])
+                            if l["k"] == "MemberExpr" and l["member"].get("this") and (l.get("ty") or "").replace("const ", "") in DOUBLE:
+                                w.add(l["member"]["qname"])
+                    if w:
+                        self.member_writes[n["id"]] = (t, w)
+                        self.ffields |= w
         self._names_of_coord(f)
 
     # ---- which coordinate of p a value local belongs to
@@ -192,6 +209,8 @@ class Walker:
                     locs.add(t["decl"]["id"])
                 if t["k"] == "MemberExpr" and t["member"].get("this") and t["member"]["qname"] in self.ffields:
                     ffs.add(t["member"]["qname"])
+        if c["id"] in self.member_writes:
+            ffs |= self.member_writes[c["id"]][1]
         # a lambda or helper that captures everything can write anything: f fields become unknown
         if c["callee"].get("via") == "operator" and c.get("op") == "()" and "obj" in c:
             o = strip(self.f.obj(c))
@@ -411,7 +430,14 @@ class Walker:
                 ptypes = {p["name"] for p in f.params}
                 import re
                 m = re.match(r"^(\w+)\.createSubList\((\d+)\)$", at)
-                if a["k"] == "DeclRefExpr" and a["decl"]["kind"] == "param":
+                bound = self.bind.get(a["decl"]["name"]) if (self.bind is not None and a["k"] == "DeclRefExpr" and a["decl"].get("kind") == "param") else None
+                if bound == "probe":
+                    for kk, v in st.pp.items():
+                        st.pt[kk] = v
+                elif bound == "other":
+                    for kk in set(st.pt) | set(st.pp) | {0}:
+                        st.pt[kk] = None
+                elif a["k"] == "DeclRefExpr" and a["decl"]["kind"] == "param":
                     st.pt = {}
                 elif a["k"] == "DeclRefExpr":
                     for kk, v in st.pp.items():
@@ -444,6 +470,28 @@ class Walker:
                     for kk in list(st.pp):
                         st.pp[kk] = None
                 return
+            if c["id"] in self.member_writes and self.bind is None:
+                t, w = self.member_writes[c["id"]]
+                flat = t.body is not None and all(x["k"] not in ("IfStmt", "ForStmt", "WhileStmt", "DoStmt", "CXXTryStmt", "SwitchStmt", "ReturnStmt", "CXXForRangeStmt", "ConditionalOperator", "LambdaExpr") for x in walk(t.body))
+                if flat and len(t.params) == len(f.args(c)):
+                    # a straight-line member helper ('move to the point, take the value'): read its statements in this state, with
+                    # its parameters standing for what the caller passed
+                    sub = Walker(t, self.fb)
+                    sub.ffields = self.ffields
+                    sub.bind = {}
+                    for p_, a_ in zip(t.params, f.args(c)):
+                        a0 = strip(a_)
+                        if a0["k"] == "DeclRefExpr" and a0["decl"].get("kind") == "param":
+                            sub.bind[p_["name"]] = "param"
+                        elif a0["k"] == "DeclRefExpr" and "ParameterList" in (a0["decl"].get("ty") or ""):
+                            sub.bind[p_["name"]] = "probe"
+                        else:
+                            sub.bind[p_["name"]] = "other"
+                    keep = dict(st.loc)
+                    for x in kids(t.body):
+                        sub.effects(x, st)
+                    st.loc = keep
+                    return
             locs, ffs = self._byref(c)
             self.havoc(st, locs, ffs, key="c%d" % c["id"])
             for a in f.args(c):
